@@ -1,4 +1,5 @@
-/* drv_stream.h -- the four kinds of input stream used by the drivers. */
+/* drv_stream.h -- the four kinds of input stream used by the drivers (file | pipe | cbskip | cbnoskip), and
+   "owned": a named file opened by the library itself (lha_input_stream_from). */
 #ifndef DRV_STREAM_H
 #define DRV_STREAM_H
 #include <stdio.h>
@@ -62,6 +63,16 @@ static int drv_stream_open(DrvStream *d, const char *kind, const char *hx)
 		d->fh = fopen(d->path, "rb"); if (!d->fh) return 0;
 		DRV_ALLOC_BEGIN();
 		d->stream = lha_input_stream_from_FILE(d->fh);
+	} else if (!strcmp(kind, "owned")) {
+		/* the library opens the file itself (lha_input_stream_from) and closes it when the stream is freed;
+		   C only: the extracted model has no such kind */
+		static unsigned oserial;
+		FILE *w;
+		snprintf(d->path, sizeof(d->path), "/dev/shm/drvown_%d_%u.bin", (int) getpid(), ++oserial);
+		w = fopen(d->path, "wb"); if (!w) return 0;
+		fwrite(d->data, 1, d->len, w); fclose(w);
+		DRV_ALLOC_BEGIN();
+		d->stream = lha_input_stream_from(d->path);
 	} else if (!strcmp(kind, "pipe")) {
 		int fds[2];
 		if (pipe(fds) != 0) return 0;
